@@ -1,5 +1,6 @@
 import CifModel.Lemmas.ParserBasic
 import CifModel.Spec.Grammar
+import CifModel.Lemmas.ParserReach
 /-
   Lemmas/ParserStructure — the productions of Model/Parser.lean build, from the token sequence of a well-formed abstract
   document (Spec/Grammar.lean), exactly the content the document denotes, and report nothing.
@@ -35,6 +36,66 @@ theorem nextTok_pending (o : Opts) (s : PS) (t : Tok) (h : s.tok = some t) (pol 
 theorem Feeds.pending {o : Opts} {s : PS} {t : Tok} {ts : List TokSpec} (ht : s.tok = some t) (hr : Feeds o (consume s) ts) :
     Feeds o s ((t.ty, t.text) :: ts) :=
   Feeds.cons (fun pol w => nextTok_pending o s t ht pol w) ht hr
+
+/-! ### where a state is on the walk of the scanner (`Reach`, Lemmas/ParserReach)
+
+  The structure lemmas below say of the state `s'` they end in what it still FEEDS; `At o s k s'` adds WHERE it is: `k` tokens
+  behind `s` — either the state after the `k`-th CONSUME_TOKEN, or that state with the next token scanned and pending. -/
+
+def At (o : Opts) (s : PS) (k : Nat) (s' : PS) : Prop :=
+  ∃ s₀, Reach o s k s₀ ∧ (s' = s₀ ∨ ∃ t, (∀ pol w, nextTok o s₀ pol w = .ok (t, s') w) ∧ s'.tok = some t)
+
+theorem At.refl (o : Opts) (s : PS) : At o s 0 s := ⟨s, Reach.zero s, Or.inl rfl⟩
+
+theorem At.cast {o : Opts} {s s' : PS} {k k' : Nat} (h : At o s k s') (e : k = k') : At o s k' s' := e ▸ h
+
+theorem nextTok_inj {o : Opts} {s : PS} {t t' : Tok} {s1 s1' : PS} (h : ∀ pol w, nextTok o s pol w = .ok (t, s1) w)
+    (h' : ∀ pol w, nextTok o s pol w = .ok (t', s1') w) : t = t' ∧ s1 = s1' := by
+  have e := (h acceptAll default).symm.trans (h' acceptAll default)
+  simp only [PRes.ok.injEq, Prod.mk.injEq] at e
+  exact e.1
+
+/-- next_token, CONSUME_TOKEN: one token further -/
+theorem At.step {o : Opts} {s s1 s2 : PS} {t : Tok} {k : Nat} (h : At o s k s1)
+    (hn : ∀ pol w, nextTok o s1 pol w = .ok (t, s2) w) (ht : s2.tok = some t) : At o s (k + 1) (consume s2) := by
+  obtain ⟨s₀, hr, rfl | ⟨t1, hn1, ht1⟩⟩ := h
+  · exact ⟨_, hr.snoc hn ht, Or.inl rfl⟩
+  · have := nextTok_inj hn (fun pol w => nextTok_pending o s1 t1 ht1 pol w)
+    obtain ⟨rfl, rfl⟩ := this
+    exact ⟨_, hr.snoc hn1 ht1, Or.inl rfl⟩
+
+/-- next_token only: the token is pending -/
+theorem At.peek {o : Opts} {s s1 s2 : PS} {t : Tok} {k : Nat} (h : At o s k s1)
+    (hn : ∀ pol w, nextTok o s1 pol w = .ok (t, s2) w) (ht : s2.tok = some t) : At o s k s2 := by
+  obtain ⟨s₀, hr, rfl | ⟨t1, hn1, ht1⟩⟩ := h
+  · exact ⟨_, hr, Or.inr ⟨t, hn, ht⟩⟩
+  · have := nextTok_inj hn (fun pol w => nextTok_pending o s1 t1 ht1 pol w)
+    obtain ⟨rfl, rfl⟩ := this
+    exact ⟨_, hr, Or.inr ⟨_, hn1, ht1⟩⟩
+
+theorem At.reach {o : Opts} {s s1 s2 : PS} {k m : Nat} (h : At o s k s1) (hr : Reach o s1 m s2) : At o s (k + m) s2 := by
+  induction hr generalizing k with
+  | zero s => exact h
+  | step hn ht hr ih =>
+    have := ih (h.step hn ht)
+    exact this.cast (by omega)
+
+theorem At.trans {o : Opts} {s s1 s2 : PS} {k m : Nat} (h : At o s k s1) (h2 : At o s1 m s2) : At o s (k + m) s2 := by
+  obtain ⟨s₀, hr, rfl | ⟨t, hn, ht⟩⟩ := h2
+  · exact h.reach hr
+  · exact (h.reach hr).peek hn ht
+
+/-- the pending-token form: the state `k` tokens behind `s` from which next_token delivers the pending token of `s'` -/
+theorem At.pending {o : Opts} {s s' : PS} {k : Nat} {t : Tok} (h : At o s k s') (ht : s'.tok = some t) :
+    ∃ s₀, Reach o s k s₀ ∧ (∀ pol w, nextTok o s₀ pol w = .ok (t, s') w) := by
+  obtain ⟨s₀, hr, rfl | ⟨t1, hn1, ht1⟩⟩ := h
+  · exact ⟨_, hr, fun pol w => nextTok_pending o _ t ht pol w⟩
+  · rw [ht] at ht1
+    cases ht1
+    exact ⟨s₀, hr, hn1⟩
+
+/-- what a structure lemma says of the state it ends in: it feeds `rest`, and it is `n` tokens behind `s` -/
+def Lands (o : Opts) (s : PS) (n : Nat) (s' : PS) (rest : List TokSpec) : Prop := Feeds o s' rest ∧ At o s n s'
 
 /-! ### well-formedness (decidable) -/
 
@@ -126,89 +187,90 @@ theorem bareValue_wf (dia : Dialect) (s : Str) (h : wfBare dia s = true) :
 
 /-! ### values -/
 
-theorem value_tok_step (o : Opts) (s : PS) (tx : Str) (rest : List TokSpec) (fuel : Nat) (pol : Policy) (w : W) (v : V)
+theorem value_tok_step_at (o : Opts) (s : PS) (tx : Str) (rest : List TokSpec) (fuel : Nat) (pol : Policy) (w : W) (v : V)
     (hf : Feeds o s ((.value, tx) :: rest)) (hb : bareValue o.dia tx = some v) :
-    ∃ s', parseValue o (fuel + 1) s pol w = .ok (v, s') w ∧ Feeds o s' rest := by
-  obtain ⟨t, s', hty, htx, hn, _, hr⟩ := hf.inv
-  refine ⟨consume s', ?_, hr⟩
+    ∃ s', parseValue o (fuel + 1) s pol w = .ok (v, s') w ∧ Lands o s 1 s' rest := by
+  obtain ⟨t, s', hty, htx, hn, ht, hr⟩ := hf.inv
+  refine ⟨consume s', ?_, hr, (At.refl o s).step hn ht⟩
   rw [parseValue]
   simp only [bind_eq, pure_eq, P.bind, P.pure, hn, hty, htx, hb]
 
-theorem qvalue_tok_step (o : Opts) (s : PS) (tx : Str) (rest : List TokSpec) (fuel : Nat) (pol : Policy) (w : W)
+theorem qvalue_tok_step_at (o : Opts) (s : PS) (tx : Str) (rest : List TokSpec) (fuel : Nat) (pol : Policy) (w : W)
     (hf : Feeds o s ((.qvalue, tx) :: rest)) (h0 : noNul tx = true) :
-    ∃ s', parseValue o (fuel + 1) s pol w = .ok (.chr true tx, s') w ∧ Feeds o s' rest := by
-  obtain ⟨t, s', hty, htx, hn, _, hr⟩ := hf.inv
-  refine ⟨consume s', ?_, hr⟩
+    ∃ s', parseValue o (fuel + 1) s pol w = .ok (.chr true tx, s') w ∧ Lands o s 1 s' rest := by
+  obtain ⟨t, s', hty, htx, hn, ht, hr⟩ := hf.inv
+  refine ⟨consume s', ?_, hr, (At.refl o s).step hn ht⟩
   rw [parseValue]
   simp only [bind_eq, pure_eq, P.bind, P.pure, hn, hty, htx, cstr_noNul h0]
 
-theorem tvalue_tok_step (o : Opts) (s : PS) (body text : Str) (rest : List TokSpec) (fuel : Nat) (pol : Policy) (w : W)
+theorem tvalue_tok_step_at (o : Opts) (s : PS) (body text : Str) (rest : List TokSpec) (fuel : Nat) (pol : Policy) (w : W)
     (hf : Feeds o s ((.tvalue, body) :: rest)) (hd : Decode.decodeText o.unfold o.prem body = text) (h0 : noNul text = true) :
-    ∃ s', parseValue o (fuel + 1) s pol w = .ok (.chr true text, s') w ∧ Feeds o s' rest := by
-  obtain ⟨t, s', hty, htx, hn, _, hr⟩ := hf.inv
-  refine ⟨consume s', ?_, hr⟩
+    ∃ s', parseValue o (fuel + 1) s pol w = .ok (.chr true text, s') w ∧ Lands o s 1 s' rest := by
+  obtain ⟨t, s', hty, htx, hn, ht, hr⟩ := hf.inv
+  refine ⟨consume s', ?_, hr, (At.refl o s).step hn ht⟩
   rw [parseValue]
   simp only [bind_eq, pure_eq, P.bind, P.pure, hn, hty, htx, hd, cstr_noNul h0]
 
 mutual
-  theorem value_structure (o : Opts) : ∀ (v : Val) (rest : List TokSpec) (s : PS) (fuel : Nat) (pol : Policy) (w : W),
+  theorem value_structure_at (o : Opts) : ∀ (v : Val) (rest : List TokSpec) (s : PS) (fuel : Nat) (pol : Policy) (w : W),
       wfVal o v = true → szVal v ≤ fuel → Feeds o s (valToks v ++ rest) →
-      ∃ s', parseValue o fuel s pol w = .ok (denoteVal o.dia o.normKey v, s') w ∧ Feeds o s' rest
+      ∃ s', parseValue o fuel s pol w = .ok (denoteVal o.dia o.normKey v, s') w ∧ Lands o s (valToks v).length s' rest
     | .unk, rest, s, fuel, pol, w, _, hf, hF => by
       obtain ⟨f, rfl⟩ : ∃ f, fuel = f + 1 := ⟨fuel - 1, by simp [szVal] at hf; omega⟩
-      exact value_tok_step o s _ rest f pol w .unk hF (by simp [bareValue])
+      exact value_tok_step_at o s _ rest f pol w .unk hF (by simp [bareValue])
     | .na, rest, s, fuel, pol, w, _, hf, hF => by
       obtain ⟨f, rfl⟩ : ∃ f, fuel = f + 1 := ⟨fuel - 1, by simp [szVal] at hf; omega⟩
-      exact value_tok_step o s _ rest f pol w .na hF (by simp [bareValue])
+      exact value_tok_step_at o s _ rest f pol w .na hF (by simp [bareValue])
     | .str tx .bare, rest, s, fuel, pol, w, hw, hf, hF => by
       obtain ⟨f, rfl⟩ : ∃ f, fuel = f + 1 := ⟨fuel - 1, by simp [szVal] at hf; omega⟩
-      exact value_tok_step o s tx rest f pol w _ hF (bareValue_wf o.dia tx (by simpa [wfVal] using hw))
+      exact value_tok_step_at o s tx rest f pol w _ hF (bareValue_wf o.dia tx (by simpa [wfVal] using hw))
     | .str tx .squote, rest, s, fuel, pol, w, hw, hf, hF => by
       obtain ⟨f, rfl⟩ : ∃ f, fuel = f + 1 := ⟨fuel - 1, by simp [szVal] at hf; omega⟩
-      exact qvalue_tok_step o s tx rest f pol w hF (by simpa [wfVal] using hw)
+      exact qvalue_tok_step_at o s tx rest f pol w hF (by simpa [wfVal] using hw)
     | .str tx .dquote, rest, s, fuel, pol, w, hw, hf, hF => by
       obtain ⟨f, rfl⟩ : ∃ f, fuel = f + 1 := ⟨fuel - 1, by simp [szVal] at hf; omega⟩
-      exact qvalue_tok_step o s tx rest f pol w hF (by simpa [wfVal] using hw)
+      exact qvalue_tok_step_at o s tx rest f pol w hF (by simpa [wfVal] using hw)
     | .str tx .tsquote, rest, s, fuel, pol, w, hw, hf, hF => by
       obtain ⟨f, rfl⟩ : ∃ f, fuel = f + 1 := ⟨fuel - 1, by simp [szVal] at hf; omega⟩
-      exact qvalue_tok_step o s tx rest f pol w hF (by simpa [wfVal] using hw)
+      exact qvalue_tok_step_at o s tx rest f pol w hF (by simpa [wfVal] using hw)
     | .str tx .tdquote, rest, s, fuel, pol, w, hw, hf, hF => by
       obtain ⟨f, rfl⟩ : ∃ f, fuel = f + 1 := ⟨fuel - 1, by simp [szVal] at hf; omega⟩
-      exact qvalue_tok_step o s tx rest f pol w hF (by simpa [wfVal] using hw)
+      exact qvalue_tok_step_at o s tx rest f pol w hF (by simpa [wfVal] using hw)
     | .str tx .text, rest, s, fuel, pol, w, hw, hf, hF => by
       obtain ⟨f, rfl⟩ : ∃ f, fuel = f + 1 := ⟨fuel - 1, by simp [szVal] at hf; omega⟩
       simp only [wfVal, Bool.and_eq_true, beq_iff_eq] at hw
-      exact tvalue_tok_step o s tx tx rest f pol w hF hw.2 hw.1
+      exact tvalue_tok_step_at o s tx tx rest f pol w hF hw.2 hw.1
     | .enc text body, rest, s, fuel, pol, w, hw, hf, hF => by
       obtain ⟨f, rfl⟩ : ∃ f, fuel = f + 1 := ⟨fuel - 1, by simp [szVal] at hf; omega⟩
       simp only [wfVal, Bool.and_eq_true, beq_iff_eq] at hw
-      exact tvalue_tok_step o s body text rest f pol w hF hw.2 hw.1
+      exact tvalue_tok_step_at o s body text rest f pol w hF hw.2 hw.1
     | .lst vs, rest, s, fuel, pol, w, hw, hf, hF => by
       obtain ⟨f, rfl⟩ : ∃ f, fuel = f + 1 := ⟨fuel - 1, by simp [szVal] at hf; omega⟩
       simp only [valToks, List.cons_append, List.append_assoc, List.singleton_append] at hF
-      obtain ⟨t, s', hty, _, hn, _, hr⟩ := hF.inv
-      obtain ⟨s'', h1, h2⟩ := values_structure o vs rest (consume s') f pol w [] (by simpa [wfVal] using hw)
+      obtain ⟨t, s', hty, _, hn, ht, hr⟩ := hF.inv
+      obtain ⟨s'', h1, h2⟩ := values_structure_at o vs rest (consume s') f pol w [] (by simpa [wfVal] using hw)
         (by simp [szVal] at hf; omega) hr
-      refine ⟨s'', ?_, h2⟩
+      refine ⟨s'', ?_, h2.1, (((At.refl o s).step hn ht).trans h2.2).cast (by simp [valToks]; omega)⟩
       rw [parseValue]
       simp only [bind_eq, pure_eq, P.bind, P.pure, hn, hty, h1, denoteVal, List.nil_append]
     | .tbl es, rest, s, fuel, pol, w, hw, hf, hF => by
       obtain ⟨f, rfl⟩ : ∃ f, fuel = f + 1 := ⟨fuel - 1, by simp [szVal] at hf; omega⟩
       simp only [valToks, List.cons_append, List.append_assoc, List.singleton_append] at hF
-      obtain ⟨t, s', hty, _, hn, _, hr⟩ := hF.inv
-      obtain ⟨s'', h1, h2⟩ := entries_structure o es rest (consume s') f pol w [] (by simpa [wfVal] using hw)
+      obtain ⟨t, s', hty, _, hn, ht, hr⟩ := hF.inv
+      obtain ⟨s'', h1, h2⟩ := entries_structure_at o es rest (consume s') f pol w [] (by simpa [wfVal] using hw)
         (by simp [szVal] at hf; omega) hr
-      refine ⟨s'', ?_, h2⟩
+      refine ⟨s'', ?_, h2.1, (((At.refl o s).step hn ht).trans h2.2).cast (by simp [valToks]; omega)⟩
       rw [parseValue]
       simp only [bind_eq, pure_eq, P.bind, P.pure, hn, hty, h1, denoteVal]
-  theorem values_structure (o : Opts) : ∀ (vs : List Val) (rest : List TokSpec) (s : PS) (fuel : Nat) (pol : Policy) (w : W)
+  theorem values_structure_at (o : Opts) : ∀ (vs : List Val) (rest : List TokSpec) (s : PS) (fuel : Nat) (pol : Policy) (w : W)
       (acc : List V), wfVals o vs = true → szVals vs + 1 ≤ fuel → Feeds o s (valsToks vs ++ (.clist, [93]) :: rest) →
-      ∃ s', listLoop o fuel s acc pol w = .ok (acc ++ denoteVals o.dia o.normKey vs, s') w ∧ Feeds o s' rest
+      ∃ s', listLoop o fuel s acc pol w = .ok (acc ++ denoteVals o.dia o.normKey vs, s') w
+        ∧ Lands o s ((valsToks vs).length + 1) s' rest
     | [], rest, s, fuel, pol, w, acc, _, hf, hF => by
       obtain ⟨f, rfl⟩ : ∃ f, fuel = f + 1 := ⟨fuel - 1, by omega⟩
       simp only [valsToks, List.nil_append] at hF
-      obtain ⟨t, s', hty, _, hn, _, hr⟩ := hF.inv
-      refine ⟨consume s', ?_, hr⟩
+      obtain ⟨t, s', hty, _, hn, ht, hr⟩ := hF.inv
+      refine ⟨consume s', ?_, hr, ((At.refl o s).step hn ht).cast (by simp [valsToks])⟩
       rw [listLoop]
       simp [bind_eq, pure_eq, P.bind, P.pure, hn, hty, isKeyTok, isValueStart, denoteVals]
     | v :: vs, rest, s, fuel, pol, w, acc, hw, hf, hF => by
@@ -224,21 +286,22 @@ mutual
       -- the element is parsed from the state in which its first token is pending
       have hpend : Feeds o s' (valToks v ++ (valsToks vs ++ (.clist, [93]) :: rest)) := by
         rw [hvt, List.cons_append, ← hty, ← htx]; exact Feeds.pending ht hr
-      obtain ⟨s1, h1, h2⟩ := value_structure o v _ s' f pol w hw.1 (by omega) hpend
-      obtain ⟨s2, h3, h4⟩ := values_structure o vs rest s1 f pol w (acc ++ [denoteVal o.dia o.normKey v]) hw.2 (by omega) h2
-      refine ⟨s2, ?_, h4⟩
+      obtain ⟨s1, h1, h2⟩ := value_structure_at o v _ s' f pol w hw.1 (by omega) hpend
+      obtain ⟨s2, h3, h4⟩ := values_structure_at o vs rest s1 f pol w (acc ++ [denoteVal o.dia o.normKey v]) hw.2 (by omega) h2.1
+      refine ⟨s2, ?_, h4.1, ((((At.refl o s).peek hn ht).trans h2.2).trans h4.2).cast (by simp [valsToks]; omega)⟩
       rw [listLoop]
       simp only [bind_eq, pure_eq, P.bind, P.pure, hn, hty, hkey, hstart, if_true, h1, h3, denoteVals,
         List.append_assoc, List.singleton_append, Bool.false_eq_true, if_false]
-  theorem entries_structure (o : Opts) : ∀ (es : List (Str × Presentation × Val)) (rest : List TokSpec) (s : PS) (fuel : Nat)
+  theorem entries_structure_at (o : Opts) : ∀ (es : List (Str × Presentation × Val)) (rest : List TokSpec) (s : PS) (fuel : Nat)
       (pol : Policy) (w : W) (acc : List (Str × Str × V)), wfEntries o es = true → szEntries es + 1 ≤ fuel →
       Feeds o s (entriesToks es ++ (.ctable, [125]) :: rest) →
-      ∃ s', tableLoop o fuel s acc pol w = .ok (denoteEntries o.dia o.normKey es acc, s') w ∧ Feeds o s' rest
+      ∃ s', tableLoop o fuel s acc pol w = .ok (denoteEntries o.dia o.normKey es acc, s') w
+        ∧ Lands o s ((entriesToks es).length + 1) s' rest
     | [], rest, s, fuel, pol, w, acc, _, hf, hF => by
       obtain ⟨f, rfl⟩ : ∃ f, fuel = f + 1 := ⟨fuel - 1, by omega⟩
       simp only [entriesToks, List.nil_append] at hF
-      obtain ⟨t, s', hty, _, hn, _, hr⟩ := hF.inv
-      refine ⟨consume s', ?_, hr⟩
+      obtain ⟨t, s', hty, _, hn, ht, hr⟩ := hF.inv
+      refine ⟨consume s', ?_, hr, ((At.refl o s).step hn ht).cast (by simp [entriesToks])⟩
       rw [tableLoop]
       simp [bind_eq, pure_eq, P.bind, P.pure, hn, hty, denoteEntries]
     | (k, kp, v) :: es, rest, s, fuel, pol, w, acc, hw, hf, hF => by
@@ -248,22 +311,61 @@ mutual
       have hp := szVal_pos v
       obtain ⟨g, rfl⟩ : ∃ g, f = g + 1 := ⟨f - 1, by omega⟩
       simp only [entriesToks, List.cons_append, List.append_assoc] at hF
-      obtain ⟨t, s', hty, htx, hn, _, hr⟩ := hF.inv
+      obtain ⟨t, s', hty, htx, hn, ht, hr⟩ := hF.inv
       obtain ⟨vty, vtx, vts, hvt, hstart, _⟩ := valToks_head v
       have hr' := hr
       rw [hvt, List.cons_append] at hr'
       obtain ⟨t2, s2, hty2, htx2, hn2, ht2, hr2⟩ := hr'.inv
       have hpend : Feeds o s2 (valToks v ++ (entriesToks es ++ (.ctable, [125]) :: rest)) := by
         rw [hvt, List.cons_append, ← hty2, ← htx2]; exact Feeds.pending ht2 hr2
-      obtain ⟨s3, h1, h2⟩ := value_structure o v _ s2 g pol w hw.1.2 (by omega) hpend
-      obtain ⟨s4, h3, h4⟩ := entries_structure o es rest s3 g pol w (putEntry o.normKey acc k (denoteVal o.dia o.normKey v)) hw.2 (by omega) h2
-      refine ⟨s4, ?_, h4⟩
+      obtain ⟨s3, h1, h2⟩ := value_structure_at o v _ s2 g pol w hw.1.2 (by omega) hpend
+      obtain ⟨s4, h3, h4⟩ := entries_structure_at o es rest s3 g pol w (putEntry o.normKey acc k (denoteVal o.dia o.normKey v)) hw.2 (by omega) h2.1
+      refine ⟨s4, ?_, h4.1,
+        (((((At.refl o s).step hn ht).peek hn2 ht2).trans h2.2).trans h4.2).cast (by simp [entriesToks]; omega)⟩
       rw [tableLoop]
       simp only [bind_eq, pure_eq, P.bind, P.pure, hn, hty, htx, cstr_noNul hw.1.1.1]
       rw [tableEntry]
       simp only [bind_eq, pure_eq, P.bind, P.pure, hw.1.1.2, Bool.false_eq_true, if_false, hn2, hty2, hstart, if_true, h1,
         tableSet_eq_putEntry, h3, denoteEntries]
 end
+
+/-- the forms without the position -/
+theorem value_tok_step (o : Opts) (s : PS) (tx : Str) (rest : List TokSpec) (fuel : Nat) (pol : Policy) (w : W) (v : V)
+    (hf : Feeds o s ((.value, tx) :: rest)) (hb : bareValue o.dia tx = some v) :
+    ∃ s', parseValue o (fuel + 1) s pol w = .ok (v, s') w ∧ Feeds o s' rest := by
+  obtain ⟨s', h1, h2⟩ := value_tok_step_at o s tx rest fuel pol w v hf hb
+  exact ⟨s', h1, h2.1⟩
+
+theorem qvalue_tok_step (o : Opts) (s : PS) (tx : Str) (rest : List TokSpec) (fuel : Nat) (pol : Policy) (w : W)
+    (hf : Feeds o s ((.qvalue, tx) :: rest)) (h0 : noNul tx = true) :
+    ∃ s', parseValue o (fuel + 1) s pol w = .ok (.chr true tx, s') w ∧ Feeds o s' rest := by
+  obtain ⟨s', h1, h2⟩ := qvalue_tok_step_at o s tx rest fuel pol w hf h0
+  exact ⟨s', h1, h2.1⟩
+
+theorem tvalue_tok_step (o : Opts) (s : PS) (body text : Str) (rest : List TokSpec) (fuel : Nat) (pol : Policy) (w : W)
+    (hf : Feeds o s ((.tvalue, body) :: rest)) (hd : Decode.decodeText o.unfold o.prem body = text) (h0 : noNul text = true) :
+    ∃ s', parseValue o (fuel + 1) s pol w = .ok (.chr true text, s') w ∧ Feeds o s' rest := by
+  obtain ⟨s', h1, h2⟩ := tvalue_tok_step_at o s body text rest fuel pol w hf hd h0
+  exact ⟨s', h1, h2.1⟩
+
+theorem value_structure (o : Opts) (v : Val) (rest : List TokSpec) (s : PS) (fuel : Nat) (pol : Policy) (w : W)
+    (hw : wfVal o v = true) (hf : szVal v ≤ fuel) (hF : Feeds o s (valToks v ++ rest)) :
+    ∃ s', parseValue o fuel s pol w = .ok (denoteVal o.dia o.normKey v, s') w ∧ Feeds o s' rest := by
+  obtain ⟨s', h1, h2⟩ := value_structure_at o v rest s fuel pol w hw hf hF
+  exact ⟨s', h1, h2.1⟩
+
+theorem values_structure (o : Opts) (vs : List Val) (rest : List TokSpec) (s : PS) (fuel : Nat) (pol : Policy) (w : W)
+    (acc : List V) (hw : wfVals o vs = true) (hf : szVals vs + 1 ≤ fuel) (hF : Feeds o s (valsToks vs ++ (.clist, [93]) :: rest)) :
+    ∃ s', listLoop o fuel s acc pol w = .ok (acc ++ denoteVals o.dia o.normKey vs, s') w ∧ Feeds o s' rest := by
+  obtain ⟨s', h1, h2⟩ := values_structure_at o vs rest s fuel pol w acc hw hf hF
+  exact ⟨s', h1, h2.1⟩
+
+theorem entries_structure (o : Opts) (es : List (Str × Presentation × Val)) (rest : List TokSpec) (s : PS) (fuel : Nat)
+    (pol : Policy) (w : W) (acc : List (Str × Str × V)) (hw : wfEntries o es = true) (hf : szEntries es + 1 ≤ fuel)
+    (hF : Feeds o s (entriesToks es ++ (.ctable, [125]) :: rest)) :
+    ∃ s', tableLoop o fuel s acc pol w = .ok (denoteEntries o.dia o.normKey es acc, s') w ∧ Feeds o s' rest := by
+  obtain ⟨s', h1, h2⟩ := entries_structure_at o es rest s fuel pol w acc hw hf hF
+  exact ⟨s', h1, h2.1⟩
 
 
 /-! ### the store: a view of the container that is being filled -/
@@ -402,25 +504,50 @@ theorem setValue_new (o : Opts) {path : Path} {put : Container → Cif} {code : 
   simp only [hvalid, Bool.not_true, Bool.false_eq_true, if_false, bind_eq, pure_eq, P.bind, P.pure, getCif, setCif, hcif, hv.upd,
     hasItem_false o code fs ls _ hfresh, Container.code, Container.frames, Container.loops, addScalar_eq]
 
-theorem parseItem_named (o : Opts) {path : Path} {put : Container → Cif} {code : Str} (hv : View o path put code)
+theorem parseItem_named_at (o : Opts) {path : Path} {put : Container → Cif} {code : Str} (hv : View o path put code)
     (n : Str) (v : Val) (rest : List TokSpec) (s : PS) (fuel : Nat) (pol : Policy) (w : W) (fs : List Container) (ls : List Loop)
     (hcif : w.cif = put (.mk code fs ls)) (hvalid : isValidName true n = true) (hfresh : o.norm n ∉ normNames o ls)
     (hwv : wfVal o v = true) (hfuel : szVal v ≤ fuel) (hF : Feeds o s (valToks v ++ rest)) :
     ∃ s', parseItem o fuel s (some path) (some n) pol w
-        = .ok s' { w with cif := put (.mk code fs (putScalar ls n (denoteVal o.dia o.normKey v))) } ∧ Feeds o s' rest := by
+        = .ok s' { w with cif := put (.mk code fs (putScalar ls n (denoteVal o.dia o.normKey v))) }
+      ∧ Lands o s (valToks v).length s' rest := by
   obtain ⟨ty, tx, ts, hvt, hstart, hkey⟩ := valToks_head v
   have hF' := hF
   rw [hvt, List.cons_append] at hF'
   obtain ⟨t, s1, hty, htx, hn, ht, hr⟩ := hF'.inv
   have hpend : Feeds o s1 (valToks v ++ rest) := by
     rw [hvt, List.cons_append, ← hty, ← htx]; exact Feeds.pending ht hr
-  obtain ⟨s2, h1, h2⟩ := value_structure o v rest s1 fuel pol w hwv hfuel hpend
-  refine ⟨s2, ?_, h2⟩
+  obtain ⟨s2, h1, h2⟩ := value_structure_at o v rest s1 fuel pol w hwv hfuel hpend
+  refine ⟨s2, ?_, h2.1, (((At.refl o s).peek hn ht).trans h2.2).cast (by omega)⟩
   unfold parseItem
   simp only [bind_eq, pure_eq, P.bind, P.pure, hn, hty, hkey, hstart, if_true, Bool.false_eq_true, if_false, h1,
     setValue_new o hv n _ fs ls pol w hcif hvalid hfresh]
 
+theorem parseItem_named (o : Opts) {path : Path} {put : Container → Cif} {code : Str} (hv : View o path put code)
+    (n : Str) (v : Val) (rest : List TokSpec) (s : PS) (fuel : Nat) (pol : Policy) (w : W) (fs : List Container) (ls : List Loop)
+    (hcif : w.cif = put (.mk code fs ls)) (hvalid : isValidName true n = true) (hfresh : o.norm n ∉ normNames o ls)
+    (hwv : wfVal o v = true) (hfuel : szVal v ≤ fuel) (hF : Feeds o s (valToks v ++ rest)) :
+    ∃ s', parseItem o fuel s (some path) (some n) pol w
+        = .ok s' { w with cif := put (.mk code fs (putScalar ls n (denoteVal o.dia o.normKey v))) } ∧ Feeds o s' rest := by
+  obtain ⟨s', h1, h2⟩ := parseItem_named_at o hv n v rest s fuel pol w fs ls hcif hvalid hfresh hwv hfuel hF
+  exact ⟨s', h1, h2.1⟩
+
 /-- one scalar item inside the element loop of a container -/
+theorem item_step_at (o : Opts) {path : Path} {put : Container → Cif} {code : Str} (hv : View o path put code)
+    (n : Str) (v : Val) (rest : List TokSpec) (s : PS) (fuel : Nat) (pol : Policy) (w : W) (fs : List Container) (ls : List Loop)
+    (isBlock : Bool) (hcif : w.cif = put (.mk code fs ls)) (hname : wfName n = true) (hfresh : o.norm n ∉ normNames o ls)
+    (hwv : wfVal o v = true) (hfuel : szVal v ≤ fuel) (hF : Feeds o s ((.name, n) :: (valToks v ++ rest))) :
+    ∃ s', elemsLoop o (fuel + 1) s (some path) isBlock pol w
+        = elemsLoop o fuel s' (some path) isBlock pol { w with cif := put (.mk code fs (putScalar ls n (denoteVal o.dia o.normKey v))) }
+      ∧ Lands o s ((valToks v).length + 1) s' rest := by
+  simp only [wfName, Bool.and_eq_true] at hname
+  obtain ⟨t, s1, hty, htx, hn, ht, hr⟩ := hF.inv
+  obtain ⟨s2, h1, h2⟩ := parseItem_named_at o hv n v rest (consume s1) fuel pol w fs ls hcif hname.1 hfresh hwv hfuel hr
+  refine ⟨s2, ?_, h2.1, (((At.refl o s).step hn ht).trans h2.2).cast (by omega)⟩
+  rw [elemsLoop]
+  simp only [bind_eq, pure_eq, P.bind, P.pure, hn, hty, htx, cstr_noNul hname.2,
+    itemExists_false o hv n fs ls pol w hcif hname.1 hfresh, Bool.false_eq_true, if_false, hname.1, Bool.not_true, and_false, h1]
+
 theorem item_step (o : Opts) {path : Path} {put : Container → Cif} {code : Str} (hv : View o path put code)
     (n : Str) (v : Val) (rest : List TokSpec) (s : PS) (fuel : Nat) (pol : Policy) (w : W) (fs : List Container) (ls : List Loop)
     (isBlock : Bool) (hcif : w.cif = put (.mk code fs ls)) (hname : wfName n = true) (hfresh : o.norm n ∉ normNames o ls)
@@ -428,13 +555,8 @@ theorem item_step (o : Opts) {path : Path} {put : Container → Cif} {code : Str
     ∃ s', elemsLoop o (fuel + 1) s (some path) isBlock pol w
         = elemsLoop o fuel s' (some path) isBlock pol { w with cif := put (.mk code fs (putScalar ls n (denoteVal o.dia o.normKey v))) }
       ∧ Feeds o s' rest := by
-  simp only [wfName, Bool.and_eq_true] at hname
-  obtain ⟨t, s1, hty, htx, hn, _, hr⟩ := hF.inv
-  obtain ⟨s2, h1, h2⟩ := parseItem_named o hv n v rest (consume s1) fuel pol w fs ls hcif hname.1 hfresh hwv hfuel hr
-  refine ⟨s2, ?_, h2⟩
-  rw [elemsLoop]
-  simp only [bind_eq, pure_eq, P.bind, P.pure, hn, hty, htx, cstr_noNul hname.2,
-    itemExists_false o hv n fs ls pol w hcif hname.1 hfresh, Bool.false_eq_true, if_false, hname.1, Bool.not_true, and_false, h1]
+  obtain ⟨s', h1, h2⟩ := item_step_at o hv n v rest s fuel pol w fs ls isBlock hcif hname hfresh hwv hfuel hF
+  exact ⟨s', h1, h2.1⟩
 
 
 /-! ### loops -/
@@ -455,25 +577,26 @@ def isTerminator (ty : TokType) : Bool :=
   !(isKeyTok ty || isValueStart ty || ty == .clist || ty == .ctable)
 
 /-- the header of a loop: every name is new to the container and to the header, so every slot is retained -/
-theorem header_structure (o : Opts) {path : Path} {put : Container → Cif} {code : Str} (hv : View o path put code)
+theorem header_structure_at (o : Opts) {path : Path} {put : Container → Cif} {code : Str} (hv : View o path put code)
     (fs : List Container) (ls : List Loop) : ∀ (ns pre : List Str) (rest : List TokSpec) (s : PS) (fuel : Nat) (pol : Policy) (w : W),
       w.cif = put (.mk code fs ls) → (∀ n ∈ ns, wfName n = true) → (∀ n ∈ ns, o.norm n ∉ normNames o ls) →
       ((pre ++ ns).map o.norm).Nodup → ns.length + 1 ≤ fuel →
       (∃ ty tx ts, rest = (ty, tx) :: ts ∧ ty ≠ .name) →
       Feeds o s (ns.map (fun n => (TokType.name, n)) ++ rest) →
-      ∃ s', headerLoop o (some path) fuel s (pre.map some) pol w = .ok ((pre ++ ns).map some, s') w ∧ Feeds o s' rest
+      ∃ s', headerLoop o (some path) fuel s (pre.map some) pol w = .ok ((pre ++ ns).map some, s') w
+        ∧ Lands o s ns.length s' rest
   | [], pre, rest, s, fuel, pol, w, _, _, _, _, hfuel, hrest, hF => by
     obtain ⟨f, rfl⟩ : ∃ f, fuel = f + 1 := ⟨fuel - 1, by omega⟩
     obtain ⟨ty, tx, ts, rfl, hty⟩ := hrest
     simp only [List.map_nil, List.nil_append] at hF
     obtain ⟨t, s1, ht1, ht2, hn, ht, hr⟩ := hF.inv
-    refine ⟨s1, ?_, by rw [← ht1, ← ht2]; exact Feeds.pending ht hr⟩
+    refine ⟨s1, ?_, by rw [← ht1, ← ht2]; exact Feeds.pending ht hr, ((At.refl o s).peek hn ht).cast (by simp)⟩
     rw [headerLoop]
     simp only [bind_eq, pure_eq, P.bind, P.pure, hn, ht1, hty, if_false, List.append_nil]
   | n :: ns, pre, rest, s, fuel, pol, w, hcif, hwf, hfresh, hnd, hfuel, hrest, hF => by
     obtain ⟨f, rfl⟩ : ∃ f, fuel = f + 1 := ⟨fuel - 1, by omega⟩
     simp only [List.map_cons, List.cons_append] at hF
-    obtain ⟨t, s1, ht1, ht2, hn, _, hr⟩ := hF.inv
+    obtain ⟨t, s1, ht1, ht2, hn, ht, hr⟩ := hF.inv
     have hw := hwf n (by simp)
     simp only [wfName, Bool.and_eq_true] at hw
     have hdist : ∀ m ∈ pre, o.norm m ≠ o.norm n := by
@@ -483,9 +606,9 @@ theorem header_structure (o : Opts) {path : Path} {put : Container → Cif} {cod
       have := (List.nodup_append.mp hnd).2.2 (o.norm m) (List.mem_map.mpr ⟨m, hm, rfl⟩) (o.norm n) (by simp)
       exact this heq
     have hnd' : (((pre ++ [n]) ++ ns).map o.norm).Nodup := by simpa using hnd
-    obtain ⟨s2, h1, h2⟩ := header_structure o hv fs ls ns (pre ++ [n]) rest (consume s1) f pol w hcif
+    obtain ⟨s2, h1, h2⟩ := header_structure_at o hv fs ls ns (pre ++ [n]) rest (consume s1) f pol w hcif
       (fun m hm => hwf m (by simp [hm])) (fun m hm => hfresh m (by simp [hm])) hnd' (by simp at hfuel; omega) hrest hr
-    refine ⟨s2, ?_, h2⟩
+    refine ⟨s2, ?_, h2.1, (((At.refl o s).step hn ht).trans h2.2).cast (by simp; omega)⟩
     rw [headerLoop]
     simp only [bind_eq, pure_eq, P.bind, P.pure, hn, ht1, ht2, if_true, cstr_noNul hw.2,
       itemExists_false o hv n fs ls pol w hcif hw.1 (hfresh n (by simp)), Bool.false_eq_true, if_false,
@@ -493,6 +616,16 @@ theorem header_structure (o : Opts) {path : Path} {put : Container → Cif} {cod
     have e : pre.map some ++ [some n] = (pre ++ [n]).map some := by simp
     rw [e, h1]
     simp
+
+theorem header_structure (o : Opts) {path : Path} {put : Container → Cif} {code : Str} (hv : View o path put code)
+    (fs : List Container) (ls : List Loop) (ns pre : List Str) (rest : List TokSpec) (s : PS) (fuel : Nat) (pol : Policy) (w : W)
+    (hcif : w.cif = put (.mk code fs ls)) (hwf : ∀ n ∈ ns, wfName n = true) (hfresh : ∀ n ∈ ns, o.norm n ∉ normNames o ls)
+    (hnd : ((pre ++ ns).map o.norm).Nodup) (hfuel : ns.length + 1 ≤ fuel)
+    (hrest : ∃ ty tx ts, rest = (ty, tx) :: ts ∧ ty ≠ .name)
+    (hF : Feeds o s (ns.map (fun n => (TokType.name, n)) ++ rest)) :
+    ∃ s', headerLoop o (some path) fuel s (pre.map some) pol w = .ok ((pre ++ ns).map some, s') w ∧ Feeds o s' rest := by
+  obtain ⟨s', h1, h2⟩ := header_structure_at o hv fs ls ns pre rest s fuel pol w hcif hwf hfresh hnd hfuel hrest hF
+  exact ⟨s', h1, h2.1⟩
 
 theorem addPacketLast_append (ls0 : List Loop) (l : Loop) (p : List V) :
     addPacketLast (ls0 ++ [l]) p = ls0 ++ [{ l with packets := l.packets ++ [p] }] := by
@@ -537,7 +670,7 @@ theorem slots_kept (ns : List Str) (i : Nat) (h : i < ns.length) : ((ns.map some
 
 /-- the body of a loop: `cur` = values of the current packet read so far, `vs` = those still to come, `ps` = the packets after
     it, `done` = the packets already stored -/
-theorem packets_structure (o : Opts) {path : Path} {put : Container → Cif} {code : Str} (hv : View o path put code)
+theorem packets_structure_at (o : Opts) {path : Path} {put : Container → Cif} {code : Str} (hv : View o path put code)
     (fs : List Container) (ls0 : List Loop) (ns : List Str) :
     ∀ (ps : List (List Val)) (vs : List Val) (cur : List V) (done : List (List V)) (b : Bool) (rest : List TokSpec) (s : PS)
       (fuel : Nat) (pol : Policy) (w : W),
@@ -548,7 +681,7 @@ theorem packets_structure (o : Opts) {path : Path} {put : Container → Cif} {co
       Feeds o s (valsToks vs ++ (packetsToks ps ++ rest)) →
       ∃ s', packetsLoop o (some path) (ns.map some) fuel s { idx := cur.length, some := b, cur := cur } pol w
           = .ok s' { w with cif := put (.mk code fs (ls0 ++ [mkLoop ns (done ++ [cur ++ denoteVals o.dia o.normKey vs] ++ ps.map (denoteVals o.dia o.normKey))])) }
-        ∧ Feeds o s' rest
+        ∧ Lands o s ((valsToks vs).length + (packetsToks ps).length) s' rest
   | ps, [], _, _, _, _, _, _, _, _, _, hne, _, _, _, _, _, _, _, _ => absurd rfl hne
   | ps, v :: vs, cur, done, b, rest, s, fuel, pol, w, hcif, _, hlen, hps, hns, hwv, hwps, hfuel, hrest, hF => by
     obtain ⟨f, rfl⟩ : ∃ f, fuel = f + 1 := ⟨fuel - 1, by omega⟩
@@ -562,7 +695,8 @@ theorem packets_structure (o : Opts) {path : Path} {put : Container → Cif} {co
     obtain ⟨t, s1, hty, htx, hn, ht, hr⟩ := hF'.inv
     have hpend : Feeds o s1 (valToks v ++ (valsToks vs ++ (packetsToks ps ++ rest))) := by
       rw [hvt, List.cons_append, ← hty, ← htx]; exact Feeds.pending ht hr
-    obtain ⟨s2, h1, h2⟩ := value_structure o v _ s1 f pol w hwv.1 (by omega) hpend
+    obtain ⟨s2, h1, h2, ha2⟩ := value_structure_at o v _ s1 f pol w hwv.1 (by omega) hpend
+    have a2 := ((At.refl o s).peek hn ht).trans ha2
     have hidx : cur.length < ns.length := by simp at hlen; omega
     have hkept := slots_kept ns cur.length hidx
     have hnl : (ns.map some).length = ns.length := by simp
@@ -576,10 +710,10 @@ theorem packets_structure (o : Opts) {path : Path} {put : Container → Cif} {co
       have hne0 : ¬ (cur.length + 1 = 0) := by omega
       simp only [hmod, hne0, if_false]
       have hl2 : (cur ++ [denoteVal o.dia o.normKey v]).length = cur.length + 1 := by simp
-      obtain ⟨s3, h3, h4⟩ := packets_structure o hv fs ls0 ns ps (v2 :: vs2) (cur ++ [denoteVal o.dia o.normKey v]) done b rest s2 f pol w
+      obtain ⟨s3, h3, h4, ha4⟩ := packets_structure_at o hv fs ls0 ns ps (v2 :: vs2) (cur ++ [denoteVal o.dia o.normKey v]) done b rest s2 f pol w
         hcif (by simp) (by simp at hlen ⊢; omega) hps hns hwv.2 hwps (by omega) hrest h2
       rw [hl2] at h3
-      refine ⟨s3, ?_, h4⟩
+      refine ⟨s3, ?_, h4, (a2.trans ha4).cast (by simp [valsToks]; omega)⟩
       rw [h3]
       simp [denoteVals, List.append_assoc]
     | nil =>
@@ -595,7 +729,7 @@ theorem packets_structure (o : Opts) {path : Path} {put : Container → Cif} {co
         simp only [packetsToks, List.nil_append] at h2
         obtain ⟨t3, s3, hty3, htx3, hn3, ht3, hr3⟩ := h2.inv
         obtain ⟨g, rfl⟩ : ∃ g, f = g + 1 := ⟨f - 1, by omega⟩
-        refine ⟨s3, ?_, by rw [← hty3, ← htx3]; exact Feeds.pending ht3 hr3⟩
+        refine ⟨s3, ?_, by rw [← hty3, ← htx3]; exact Feeds.pending ht3 hr3, (a2.peek hn3 ht3).cast (by simp [valsToks, packetsToks])⟩
         simp only [isTerminator, Bool.not_eq_true', Bool.or_eq_false_iff, beq_eq_false_iff_ne, ne_eq] at hterm
         rw [packetsLoop]
         simp [bind_eq, pure_eq, P.bind, P.pure, hn3, hty3, hterm.1.1.1, hterm.1.1.2, hterm.1.2, hterm.2, denoteVals,
@@ -608,16 +742,32 @@ theorem packets_structure (o : Opts) {path : Path} {put : Container → Cif} {co
         simp only [packetsToks, List.append_assoc] at h2
         have hsp := szVals_pos_of_ne p hpne
         simp only [szPackets] at hfuel
-        obtain ⟨s3, h3, h4⟩ := packets_structure o hv fs ls0 ns ps2 p [] (done ++ [cur ++ [denoteVal o.dia o.normKey v]]) true rest s2 f pol
+        obtain ⟨s3, h3, h4, ha4⟩ := packets_structure_at o hv fs ls0 ns ps2 p [] (done ++ [cur ++ [denoteVal o.dia o.normKey v]]) true rest s2 f pol
           { w with cif := put (.mk code fs (ls0 ++ [mkLoop ns (done ++ [cur ++ [denoteVal o.dia o.normKey v]])])) }
           rfl hpne (by simpa using hpl) (fun q hq => hps q (by simp [hq])) hns (hwps p (by simp)) (fun q hq => hwps q (by simp [hq]))
           (by omega) hrest h2
-        refine ⟨s3, ?_, h4⟩
+        refine ⟨s3, ?_, h4, (a2.trans ha4).cast (by simp [valsToks, packetsToks])⟩
         simp only [List.length_nil] at h3
         rw [h3]
         simp [denoteVals, List.append_assoc]
 termination_by ps vs => (ps.length, vs.length)
 
+
+theorem packets_structure (o : Opts) {path : Path} {put : Container → Cif} {code : Str} (hv : View o path put code)
+    (fs : List Container) (ls0 : List Loop) (ns : List Str)
+    (ps : List (List Val)) (vs : List Val) (cur : List V) (done : List (List V)) (b : Bool) (rest : List TokSpec) (s : PS)
+    (fuel : Nat) (pol : Policy) (w : W)
+    (hcif : w.cif = put (.mk code fs (ls0 ++ [mkLoop ns done])))
+    (hne : vs ≠ []) (hlen : cur.length + vs.length = ns.length) (hps : ∀ p ∈ ps, p.length = ns.length) (hns : ns ≠ [])
+    (hwv : wfVals o vs = true) (hwps : ∀ p ∈ ps, wfVals o p = true) (hfuel : szVals vs + szPackets ps + 1 ≤ fuel)
+    (hrest : ∃ ty tx ts, rest = (ty, tx) :: ts ∧ isTerminator ty = true)
+    (hF : Feeds o s (valsToks vs ++ (packetsToks ps ++ rest))) :
+    ∃ s', packetsLoop o (some path) (ns.map some) fuel s { idx := cur.length, some := b, cur := cur } pol w
+        = .ok s' { w with cif := put (.mk code fs (ls0 ++ [mkLoop ns (done ++ [cur ++ denoteVals o.dia o.normKey vs] ++ ps.map (denoteVals o.dia o.normKey))])) }
+      ∧ Feeds o s' rest := by
+  obtain ⟨s', h1, h2⟩ := packets_structure_at o hv fs ls0 ns ps vs cur done b rest s fuel pol w hcif hne hlen hps hns hwv hwps hfuel
+    hrest hF
+  exact ⟨s', h1, h2.1⟩
 
 theorem hasDup_false (l : List Str) (h : l.Nodup) : hasDup l = false := by
   induction l with
@@ -633,7 +783,7 @@ theorem filterMap_map_some (l : List Str) : (l.map some).filterMap id = l := by
   | cons a r ih => simp [List.filterMap_cons, ih]
 
 /-- one loop inside the element loop of a container -/
-theorem loop_step (o : Opts) {path : Path} {put : Container → Cif} {code : Str} (hv : View o path put code)
+theorem loop_step_at (o : Opts) {path : Path} {put : Container → Cif} {code : Str} (hv : View o path put code)
     (ns : List Str) (p0 : List Val) (ps : List (List Val)) (rest : List TokSpec) (s : PS) (fuel : Nat) (pol : Policy) (w : W)
     (fs : List Container) (ls : List Loop) (isBlock : Bool) (hcif : w.cif = put (.mk code fs ls))
     (hns : ns ≠ []) (hwf : ∀ n ∈ ns, wfName n = true) (hfresh : ∀ n ∈ ns, o.norm n ∉ normNames o ls)
@@ -644,8 +794,8 @@ theorem loop_step (o : Opts) {path : Path} {put : Container → Cif} {code : Str
     ∃ s', elemsLoop o (fuel + 1) s (some path) isBlock pol w
         = elemsLoop o fuel s' (some path) isBlock pol
             { w with cif := put (.mk code fs (ls ++ [mkLoop ns ((p0 :: ps).map (denoteVals o.dia o.normKey))])) }
-      ∧ Feeds o s' rest := by
-  obtain ⟨t, s1, hty, _, hn, _, hr⟩ := hF.inv
+      ∧ Lands o s (1 + ns.length + (packetsToks (p0 :: ps)).length) s' rest := by
+  obtain ⟨t, s1, hty, _, hn, ht, hr⟩ := hF.inv
   have hp0l : p0.length = ns.length := hlen p0 (by simp)
   have hp0 : p0 ≠ [] := by
     intro h; rw [h] at hp0l; exact hns (List.length_eq_zero_iff.mp hp0l.symm)
@@ -658,16 +808,16 @@ theorem loop_step (o : Opts) {path : Path} {put : Container → Cif} {code : Str
       refine ⟨ty, tx, ts ++ (valsToks vs ++ packetsToks ps ++ rest), ?_, ?_⟩
       · simp [packetsToks, valsToks, hvt, List.append_assoc]
       · intro h; rw [h] at hstart; cases hstart
-  obtain ⟨s2, h1, h2⟩ := header_structure o hv fs ls ns [] _ (consume s1) fuel pol w hcif hwf hfresh (by simpa using hnd)
+  obtain ⟨s2, h1, h2, ha2⟩ := header_structure_at o hv fs ls ns [] _ (consume s1) fuel pol w hcif hwf hfresh (by simpa using hnd)
     (by simp only [szPackets] at hfuel; omega) hfirst hr
   simp only [List.nil_append, List.map_nil] at h1
   -- the loop is created
   let w1 : W := { w with cif := put (.mk code fs (ls ++ [mkLoop ns []])) }
   have hsz : szVals p0 + szPackets ps + 1 ≤ fuel := by simp only [szPackets] at hfuel; omega
   simp only [packetsToks, List.append_assoc] at h2
-  obtain ⟨s3, h3, h4⟩ := packets_structure o hv fs ls ns ps p0 [] [] false rest s2 fuel pol w1 rfl hp0 (by simpa using hp0l)
+  obtain ⟨s3, h3, h4, ha4⟩ := packets_structure_at o hv fs ls ns ps p0 [] [] false rest s2 fuel pol w1 rfl hp0 (by simpa using hp0l)
     (fun p hp => hlen p (by simp [hp])) hns (hwv p0 (by simp)) (fun p hp => hwv p (by simp [hp])) hsz hrest h2
-  refine ⟨s3, ?_, h4⟩
+  refine ⟨s3, ?_, h4, ((((At.refl o s).step hn ht).trans ha2).trans ha4).cast (by simp [packetsToks])⟩
   have hvalid : ns.any (fun n => !isValidName true n) = false := by
     rw [List.any_eq_false]
     intro n hn'
@@ -694,6 +844,21 @@ theorem loop_step (o : Opts) {path : Path} {put : Container → Cif} {code : Str
     Container.loops]
   simp only [List.length_nil, List.nil_append] at h3
   exact h3 ▸ rfl
+
+theorem loop_step (o : Opts) {path : Path} {put : Container → Cif} {code : Str} (hv : View o path put code)
+    (ns : List Str) (p0 : List Val) (ps : List (List Val)) (rest : List TokSpec) (s : PS) (fuel : Nat) (pol : Policy) (w : W)
+    (fs : List Container) (ls : List Loop) (isBlock : Bool) (hcif : w.cif = put (.mk code fs ls))
+    (hns : ns ≠ []) (hwf : ∀ n ∈ ns, wfName n = true) (hfresh : ∀ n ∈ ns, o.norm n ∉ normNames o ls)
+    (hnd : (ns.map o.norm).Nodup) (hlen : ∀ p ∈ p0 :: ps, p.length = ns.length) (hwv : ∀ p ∈ p0 :: ps, wfVals o p = true)
+    (hfuel : ns.length + szPackets (p0 :: ps) + 1 ≤ fuel)
+    (hrest : ∃ ty tx ts, rest = (ty, tx) :: ts ∧ isTerminator ty = true)
+    (hF : Feeds o s ((.loopKw, []) :: (ns.map (fun n => (TokType.name, n)) ++ (packetsToks (p0 :: ps) ++ rest)))) :
+    ∃ s', elemsLoop o (fuel + 1) s (some path) isBlock pol w
+        = elemsLoop o fuel s' (some path) isBlock pol
+            { w with cif := put (.mk code fs (ls ++ [mkLoop ns ((p0 :: ps).map (denoteVals o.dia o.normKey))])) }
+      ∧ Feeds o s' rest := by
+  obtain ⟨s', h1, h2⟩ := loop_step_at o hv ns p0 ps rest s fuel pol w fs ls isBlock hcif hns hwf hfresh hnd hlen hwv hfuel hrest hF
+  exact ⟨s', h1, h2.1⟩
 
 
 /-! ### runs of items -/
@@ -743,16 +908,16 @@ def lastIsLoop : List Item → Bool
   | [.item _ _] => false
   | _ :: i :: r => lastIsLoop (i :: r)
 
-theorem items_structure (o : Opts) {path : Path} {put : Container → Cif} {code : Str} (hv : View o path put code) :
+theorem items_structure_at (o : Opts) {path : Path} {put : Container → Cif} {code : Str} (hv : View o path put code) :
     ∀ (its : List Item) (seen : List Str) (rest : List TokSpec) (s : PS) (fuel : Nat) (pol : Policy) (w : W) (fs : List Container)
       (ls : List Loop) (isBlock : Bool), w.cif = put (.mk code fs ls) → wfItems o its seen = true →
       (∀ k ∈ normNames o ls, k ∈ seen) → szItems its ≤ fuel →
       (lastIsLoop its = true → ∃ ty tx ts, rest = (ty, tx) :: ts ∧ isTerminator ty = true) → Feeds o s (itemsToks its ++ rest) →
       ∃ s', elemsLoop o (fuel + its.length) s (some path) isBlock pol w
           = elemsLoop o fuel s' (some path) isBlock pol { w with cif := put (.mk code fs (denoteItems o.dia o.normKey its ls)) }
-        ∧ Feeds o s' rest
+        ∧ Lands o s (itemsToks its).length s' rest
   | [], seen, rest, s, fuel, pol, w, fs, ls, isBlock, hcif, _, _, _, _, hF => by
-    refine ⟨s, ?_, by simpa [itemsToks] using hF⟩
+    refine ⟨s, ?_, by simpa [itemsToks] using hF, (At.refl o s).cast (by simp [itemsToks])⟩
     simp only [List.length_nil, Nat.add_zero, denoteItems]
     have : ({ w with cif := put (.mk code fs ls) } : W) = w := by cases w; simp_all
     rw [this]
@@ -766,9 +931,9 @@ theorem items_structure (o : Opts) {path : Path} {put : Container → Cif} {code
       simp [List.contains_iff_mem] at hnew
       exact hnew this
     simp only [itemsToks, itemToks, List.cons_append, List.append_assoc] at hF
-    obtain ⟨s1, h1, h2⟩ := item_step o hv n v (itemsToks r ++ rest) s (fuel + r.length) pol w fs ls isBlock hcif hname hfresh hwv
+    obtain ⟨s1, h1, h2, ha2⟩ := item_step_at o hv n v (itemsToks r ++ rest) s (fuel + r.length) pol w fs ls isBlock hcif hname hfresh hwv
       (by omega) hF
-    obtain ⟨s2, h3, h4⟩ := items_structure o hv r (o.norm n :: seen) rest s1 fuel pol
+    obtain ⟨s2, h3, h4, ha4⟩ := items_structure_at o hv r (o.norm n :: seen) rest s1 fuel pol
       { w with cif := put (.mk code fs (putScalar ls n (denoteVal o.dia o.normKey v))) } fs _ isBlock rfl hwr
       (by
         intro k hk
@@ -778,7 +943,7 @@ theorem items_structure (o : Opts) {path : Path} {put : Container → Cif} {code
       (by omega) (by intro hl; cases r with
         | nil => simp [lastIsLoop] at hl
         | cons i2 r2 => exact hrest (by simpa [lastIsLoop] using hl)) h2
-    refine ⟨s2, ?_, h4⟩
+    refine ⟨s2, ?_, h4, (ha2.trans ha4).cast (by simp [itemsToks, itemToks]; omega)⟩
     have e : fuel + (Item.item n v :: r).length = (fuel + r.length) + 1 := by simp; omega
     rw [e, h1, h3]
     simp [denoteItems]
@@ -796,14 +961,14 @@ theorem items_structure (o : Opts) {path : Path} {put : Container → Cif} {code
         simp [List.contains_iff_mem] at this
         exact this (hseen _ h)
       simp only [itemsToks, itemToks, List.cons_append, List.append_assoc] at hF
-      obtain ⟨s1, h1, h2⟩ := loop_step o hv ns p0 ps' (itemsToks r ++ rest) s (fuel + r.length) pol w fs ls isBlock hcif hns hnames
+      obtain ⟨s1, h1, h2, ha2⟩ := loop_step_at o hv ns p0 ps' (itemsToks r ++ rest) s (fuel + r.length) pol w fs ls isBlock hcif hns hnames
         hfresh (nodup_of_hasDup_false _ hdup) (fun p hp => (hpk p hp).1) (fun p hp => (hpk p hp).2) (by omega)
         (by cases r with
           | nil => simpa [itemsToks] using hrest (by simp [lastIsLoop])
           | cons i2 r2 =>
             obtain ⟨ty, tx, ts, h, ht⟩ := itemToks_head i2
             exact ⟨ty, tx, ts ++ (itemsToks r2 ++ rest), by simp [itemsToks, h], ht⟩) hF
-      obtain ⟨s2, h3, h4⟩ := items_structure o hv r (ns.map o.norm ++ seen) rest s1 fuel pol
+      obtain ⟨s2, h3, h4, ha4⟩ := items_structure_at o hv r (ns.map o.norm ++ seen) rest s1 fuel pol
         { w with cif := put (.mk code fs (ls ++ [mkLoop ns ((p0 :: ps').map (denoteVals o.dia o.normKey))])) } fs _ isBlock rfl hwr
         (by
           intro k hk
@@ -813,10 +978,22 @@ theorem items_structure (o : Opts) {path : Path} {put : Container → Cif} {code
         (by omega) (by intro hl; cases r with
           | nil => simp [lastIsLoop] at hl
           | cons i2 r2 => exact hrest (by simpa [lastIsLoop] using hl)) h2
-      refine ⟨s2, ?_, h4⟩
+      refine ⟨s2, ?_, h4, (ha2.trans ha4).cast (by simp [itemsToks, itemToks]; omega)⟩
       have e : fuel + (Item.loop ns (p0 :: ps') :: r).length = (fuel + r.length) + 1 := by simp; omega
       rw [e, h1, h3]
       simp [denoteItems, mkLoop]
+
+theorem items_structure (o : Opts) {path : Path} {put : Container → Cif} {code : Str} (hv : View o path put code)
+    (its : List Item) (seen : List Str) (rest : List TokSpec) (s : PS) (fuel : Nat) (pol : Policy) (w : W) (fs : List Container)
+    (ls : List Loop) (isBlock : Bool) (hcif : w.cif = put (.mk code fs ls)) (hwf : wfItems o its seen = true)
+    (hseen : ∀ k ∈ normNames o ls, k ∈ seen) (hfuel : szItems its ≤ fuel)
+    (hrest : lastIsLoop its = true → ∃ ty tx ts, rest = (ty, tx) :: ts ∧ isTerminator ty = true)
+    (hF : Feeds o s (itemsToks its ++ rest)) :
+    ∃ s', elemsLoop o (fuel + its.length) s (some path) isBlock pol w
+        = elemsLoop o fuel s' (some path) isBlock pol { w with cif := put (.mk code fs (denoteItems o.dia o.normKey its ls)) }
+      ∧ Feeds o s' rest := by
+  obtain ⟨s', h1, h2⟩ := items_structure_at o hv its seen rest s fuel pol w fs ls isBlock hcif hwf hseen hfuel hrest hF
+  exact ⟨s', h1, h2.1⟩
 
 
 /-! ### pruning: every loop the productions leave behind has a packet -/
@@ -1062,7 +1239,7 @@ theorem allPacked_denoteElems (o : Opts) : ∀ (es : List Elem) (seen fseen : Li
     exact allPacked_denoteElems o r _ _ _ ls hw.2 h
 
 /-- the elements of a container (a data block or a save frame at any depth), frames inside them included -/
-theorem elemsV (o : Opts) (hmfd : o.maxFrameDepth ≠ 0) :
+theorem elemsV_at (o : Opts) (hmfd : o.maxFrameDepth ≠ 0) :
     ∀ (es : List Elem) (path : Path) (put : Container → Cif) (code : Str) (hv : View o path put code) (isBlock : Bool)
       (seen fseen : List Str) (rest : List TokSpec) (s : PS) (fuel : Nat) (pol : Policy) (w : W)
       (fs : List Container) (ls : List Loop),
@@ -1073,9 +1250,9 @@ theorem elemsV (o : Opts) (hmfd : o.maxFrameDepth ≠ 0) :
       ∃ s', elemsLoop o (fuel + es.length) s (some path) isBlock pol w
           = elemsLoop o fuel s' (some path) isBlock pol
               { w with cif := put (.mk code (denoteElems o.dia o.normKey es fs ls).1 (denoteElems o.dia o.normKey es fs ls).2) }
-        ∧ Feeds o s' rest
+        ∧ Lands o s (elemsToks es).length s' rest
   | [], path, put, code, hv, isBlock, seen, fseen, rest, s, fuel, pol, w, fs, ls, _, hcif, _, _, _, _, _, hF => by
-    refine ⟨s, ?_, by simpa [elemsToks] using hF⟩
+    refine ⟨s, ?_, by simpa [elemsToks] using hF, (At.refl o s).cast (by simp [elemsToks])⟩
     simp only [List.length_nil, Nat.add_zero, denoteElems]
     have : ({ w with cif := put (.mk code fs ls) } : W) = w := by cases w; simp_all
     rw [this]
@@ -1085,16 +1262,16 @@ theorem elemsV (o : Opts) (hmfd : o.maxFrameDepth ≠ 0) :
     simp only [szElems, szElem] at hfuel
     simp only [elemsToks, elemToks, List.append_assoc] at hF
     have hF1 : Feeds o s (itemsToks [i] ++ (elemsToks r ++ rest)) := by simpa [itemsToks] using hF
-    obtain ⟨s1, h1, h2⟩ := items_structure o hv [i] seen (elemsToks r ++ rest) s (fuel + r.length) pol w fs ls isBlock hcif hwf.1 hseen
+    obtain ⟨s1, h1, h2, ha2⟩ := items_structure_at o hv [i] seen (elemsToks r ++ rest) s (fuel + r.length) pol w fs ls isBlock hcif hwf.1 hseen
       (by simp [szItems]; omega) (fun _ => elems_rest_head r rest hrest) hF1
-    obtain ⟨s2, h3, h4⟩ := elemsV o hmfd r path put code hv isBlock (itemNames o i ++ seen) fseen rest s1 fuel pol
+    obtain ⟨s2, h3, h4, ha4⟩ := elemsV_at o hmfd r path put code hv isBlock (itemNames o i ++ seen) fseen rest s1 fuel pol
       { w with cif := put (.mk code fs (denoteItems o.dia o.normKey [i] ls)) } fs _
       (by rcases hlvl with h | h | h
           · exact Or.inl h
           · exact Or.inr (Or.inl (by simpa [noFrames] using h))
           · exact Or.inr (Or.inr h))
       rfl hwf.2 (normNames_item o i seen ls hwf.1 hseen) hfseen (by omega) hrest h2
-    refine ⟨s2, ?_, h4⟩
+    refine ⟨s2, ?_, h4, (ha2.trans ha4).cast (by simp [elemsToks, elemToks, itemsToks])⟩
     have e : fuel + (Elem.plain i :: r).length = (fuel + r.length) + [i].length := by simp; omega
     rw [e, h1, h3, denoteElems_plain]
   | .frame c b :: r, path, put, code, hv, isBlock, seen, fseen, rest, s, fuel, pol, w, fs, ls, hlvl, hcif, hwf, hseen, hfseen, hfuel,
@@ -1123,17 +1300,17 @@ theorem elemsV (o : Opts) (hmfd : o.maxFrameDepth ≠ 0) :
       · simp [h]
     simp only [wfCode, Bool.and_eq_true] at hcode
     simp only [elemsToks, elemToks, List.cons_append, List.append_assoc, List.singleton_append] at hF
-    obtain ⟨t, s1, hty, htx, hn, _, hr⟩ := hF.inv
+    obtain ⟨t, s1, hty, htx, hn, ht, hr⟩ := hF.inv
     obtain ⟨X, hX⟩ : ∃ X, fuel + r.length = X + 1 := ⟨fuel + r.length - 1, by omega⟩
     obtain ⟨g, hg⟩ : ∃ g, X = (g + 1) + b.length := ⟨X - b.length - 1, by omega⟩
     have hvf := hv.child fs ls c hnew
-    obtain ⟨s2, h1, h2⟩ := elemsV o hmfd b _ _ _ hvf false [] [] ((.frameTerm, []) :: (elemsToks r ++ rest)) (consume s1) (g + 1) pol
+    obtain ⟨s2, h1, h2, ha2⟩ := elemsV_at o hmfd b _ _ _ hvf false [] [] ((.frameTerm, []) :: (elemsToks r ++ rest)) (consume s1) (g + 1) pol
       { w with cif := put (.mk code (fs ++ [.mk c [] []]) ls) } [] [] (Or.inr hdeep) rfl hwb
       (by intro k hk; simp [normNames] at hk) (by intro c' hc'; cases hc') (by omega) ⟨_, _, _, rfl, rfl⟩ hr
-    obtain ⟨t3, s3, hty3, _, hn3, _, hr3⟩ := h2.inv
+    obtain ⟨t3, s3, hty3, _, hn3, ht3, hr3⟩ := h2.inv
     have hpacked : allPacked (denoteElems o.dia o.normKey b [] []).2 :=
       allPacked_denoteElems o b [] [] [] [] hwb (by intro l hl; cases hl)
-    obtain ⟨s4, h3, h4⟩ := elemsV o hmfd r path put code hv isBlock seen (o.norm c :: fseen) rest (consume s3) fuel pol
+    obtain ⟨s4, h3, h4, ha4⟩ := elemsV_at o hmfd r path put code hv isBlock seen (o.norm c :: fseen) rest (consume s3) fuel pol
       { w with cif := put (.mk code (fs ++ [.mk c (denoteElems o.dia o.normKey b [] []).1 (denoteElems o.dia o.normKey b [] []).2]) ls) }
       _ ls
       (by rcases hlvl with h | h | h
@@ -1147,7 +1324,8 @@ theorem elemsV (o : Opts) (hmfd : o.maxFrameDepth ≠ 0) :
         · exact List.mem_cons_of_mem _ (hfseen c' h)
         · simp only [List.mem_singleton] at h; subst h; simp [Container.code])
       (by omega) hrest hr3
-    refine ⟨s4, ?_, h4⟩
+    refine ⟨s4, ?_, h4, (((((At.refl o s).step hn ht).trans ha2).step hn3 ht3).trans ha4).cast
+      (by simp [elemsToks, elemToks]; omega)⟩
     have e : fuel + (Elem.frame c b :: r).length = (fuel + r.length) + 1 := by simp; omega
     rw [← hg] at h1
     rw [e]
@@ -1161,6 +1339,37 @@ theorem elemsV (o : Opts) (hmfd : o.maxFrameDepth ≠ 0) :
       pruneC_packed _ _ _ hpacked]
     rw [← hX, h3, denoteElems_frame]
 termination_by es => sizeOf es
+
+theorem elemsV (o : Opts) (hmfd : o.maxFrameDepth ≠ 0)
+    (es : List Elem) (path : Path) (put : Container → Cif) (code : Str) (hv : View o path put code) (isBlock : Bool)
+    (seen fseen : List Str) (rest : List TokSpec) (s : PS) (fuel : Nat) (pol : Policy) (w : W)
+    (fs : List Container) (ls : List Loop)
+    (hlvl : isBlock = true ∨ noFrames es = true ∨ o.maxFrameDepth ≠ 1)
+    (hcif : w.cif = put (.mk code fs ls)) (hwf : wfElems o es seen fseen = true)
+    (hseen : ∀ k ∈ normNames o ls, k ∈ seen) (hfseen : ∀ c ∈ fs, o.norm c.code ∈ fseen) (hfuel : szElems es ≤ fuel)
+    (hrest : ∃ ty tx ts, rest = (ty, tx) :: ts ∧ isTerminator ty = true) (hF : Feeds o s (elemsToks es ++ rest)) :
+    ∃ s', elemsLoop o (fuel + es.length) s (some path) isBlock pol w
+        = elemsLoop o fuel s' (some path) isBlock pol
+            { w with cif := put (.mk code (denoteElems o.dia o.normKey es fs ls).1 (denoteElems o.dia o.normKey es fs ls).2) }
+      ∧ Feeds o s' rest := by
+  obtain ⟨s', h1, h2⟩ := elemsV_at o hmfd es path put code hv isBlock seen fseen rest s fuel pol w fs ls hlvl hcif hwf hseen hfseen
+    hfuel hrest hF
+  exact ⟨s', h1, h2.1⟩
+
+/-- the elements of a data block -/
+theorem elems_structure_at (o : Opts) (done : Cif) (bcode : Str) (hfresh : ∀ c ∈ done, codeIs o.norm (o.norm bcode) c = false)
+    (hmfd : o.maxFrameDepth ≠ 0) :
+    ∀ (es : List Elem) (seen fseen : List Str) (rest : List TokSpec) (s : PS) (fuel : Nat) (pol : Policy) (w : W)
+      (fs : List Container) (ls : List Loop), w.cif = done ++ [.mk bcode fs ls] → wfElems o es seen fseen = true →
+      (∀ k ∈ normNames o ls, k ∈ seen) → (∀ c ∈ fs, o.norm c.code ∈ fseen) → szElems es ≤ fuel →
+      (∃ ty tx ts, rest = (ty, tx) :: ts ∧ isTerminator ty = true) → Feeds o s (elemsToks es ++ rest) →
+      ∃ s', elemsLoop o (fuel + es.length) s (some [o.norm bcode]) true pol w
+          = elemsLoop o fuel s' (some [o.norm bcode]) true pol
+              { w with cif := done ++ [.mk bcode (denoteElems o.dia o.normKey es fs ls).1 (denoteElems o.dia o.normKey es fs ls).2] }
+        ∧ Lands o s (elemsToks es).length s' rest :=
+  fun es seen fseen rest s fuel pol w fs ls hcif hwf hseen hfseen hfuel hrest hF =>
+    elemsV_at o hmfd es _ _ _ (View.block o done bcode hfresh) true seen fseen rest s fuel pol w fs ls (Or.inl rfl) hcif hwf hseen hfseen
+      hfuel hrest hF
 
 /-- the elements of a data block -/
 theorem elems_structure (o : Opts) (done : Cif) (bcode : Str) (hfresh : ∀ c ∈ done, codeIs o.norm (o.norm bcode) c = false)
@@ -1198,24 +1407,25 @@ theorem blockFollow_term {rest : List TokSpec} (h : blockFollow rest) : ∃ ty t
   obtain ⟨ty, tx, ts, rfl, h | h⟩ := h <;> exact ⟨ty, tx, ts, rfl, by subst h; rfl⟩
 
 /-- one data block inside the block loop of parse_cif -/
-theorem block_step (o : Opts) (hstore : o.store = true) (hmfd : o.maxFrameDepth ≠ 0) (b : Block) (rest : List TokSpec) (s : PS)
+theorem block_step_at (o : Opts) (hstore : o.store = true) (hmfd : o.maxFrameDepth ≠ 0) (b : Block) (rest : List TokSpec) (s : PS)
     (fuel : Nat) (pol : Policy) (w : W) (hcode : wfCode b.code = true) (hnew : ∀ c ∈ w.cif, codeIs o.norm (o.norm b.code) c = false)
     (hwb : wfElems o b.body [] [] = true) (hfuel : szBlock b ≤ fuel) (hrest : blockFollow rest)
     (hF : Feeds o s ((.blockHead, b.code) :: (elemsToks b.body ++ rest))) :
     ∃ s', blocksLoop o (fuel + 1) s pol w = blocksLoop o fuel s' pol { w with cif := w.cif ++ [denoteBlock o.dia o.normKey b] }
-      ∧ Feeds o s' rest := by
+      ∧ Lands o s (1 + (elemsToks b.body).length) s' rest := by
   simp only [wfCode, Bool.and_eq_true] at hcode
   simp only [szBlock] at hfuel
-  obtain ⟨t, s1, hty, htx, hn, _, hr⟩ := hF.inv
+  obtain ⟨t, s1, hty, htx, hn, ht, hr⟩ := hF.inv
   obtain ⟨X, hX⟩ : ∃ X, fuel = X + 1 := ⟨fuel - 1, by omega⟩
   obtain ⟨g, hg⟩ : ∃ g, X = (g + 1) + b.body.length := ⟨X - b.body.length - 1, by omega⟩
-  obtain ⟨s2, h1, h2⟩ := elems_structure o w.cif b.code hnew hmfd b.body [] [] rest (consume s1) (g + 1) pol
+  obtain ⟨s2, h1, h2, ha2⟩ := elems_structure_at o w.cif b.code hnew hmfd b.body [] [] rest (consume s1) (g + 1) pol
     { w with cif := w.cif ++ [.mk b.code [] []] } [] [] rfl hwb (by intro k hk; simp [normNames] at hk) (by intro c hc; cases hc)
     (by omega) (blockFollow_term hrest) hr
   rw [← hg] at h1
   obtain ⟨ty, tx, ts, rfl, hfol⟩ := hrest
   obtain ⟨t3, s3, hty3, htx3, hn3, ht3, hr3⟩ := h2.inv
-  refine ⟨s3, ?_, by rw [← hty3, ← htx3]; exact Feeds.pending ht3 hr3⟩
+  refine ⟨s3, ?_, by rw [← hty3, ← htx3]; exact Feeds.pending ht3 hr3,
+    ((((At.refl o s).step hn ht).trans ha2).peek hn3 ht3).cast (by omega)⟩
   have hpacked : allPacked (denoteElems o.dia o.normKey b.body [] []).2 :=
     allPacked_denoteElems o b.body [] [] [] [] hwb (by intro l hl; cases hl)
   have hv := View.block o w.cif b.code hnew
@@ -1230,6 +1440,15 @@ theorem block_step (o : Opts) (hstore : o.store = true) (hmfd : o.maxFrameDepth 
     rw [hX]; rfl
   · simp only [bind_eq, pure_eq, P.bind, P.pure, hn3, hty3, h, if_true, getCif, setCif, hv.upd, pruneC_packed _ _ _ hpacked]
     rw [hX]; rfl
+
+theorem block_step (o : Opts) (hstore : o.store = true) (hmfd : o.maxFrameDepth ≠ 0) (b : Block) (rest : List TokSpec) (s : PS)
+    (fuel : Nat) (pol : Policy) (w : W) (hcode : wfCode b.code = true) (hnew : ∀ c ∈ w.cif, codeIs o.norm (o.norm b.code) c = false)
+    (hwb : wfElems o b.body [] [] = true) (hfuel : szBlock b ≤ fuel) (hrest : blockFollow rest)
+    (hF : Feeds o s ((.blockHead, b.code) :: (elemsToks b.body ++ rest))) :
+    ∃ s', blocksLoop o (fuel + 1) s pol w = blocksLoop o fuel s' pol { w with cif := w.cif ++ [denoteBlock o.dia o.normKey b] }
+      ∧ Feeds o s' rest := by
+  obtain ⟨s', h1, h2⟩ := block_step_at o hstore hmfd b rest s fuel pol w hcode hnew hwb hfuel hrest hF
+  exact ⟨s', h1, h2.1⟩
 
 theorem blocks_rest_head (r : List Block) : blockFollow (blocksToks r ++ [(.end_, [])]) := by
   cases r with
